@@ -342,11 +342,14 @@ REG['C17'] = {
     'K': [dict(id='c17_k_six_star', fn='LunarDay::get_six_star', clause='== (|month| + day - 2) mod 6 for every (month incl. leap, day)'),
           dict(id='c17_k_minor_ren', fn='LunarDay::get_minor_ren / LunarMonth::get_minor_ren', clause='== ((|month|-1) mod 6 + day - 1) mod 6'),
           dict(id='c17_k_duty', fn='SixtyCycleDay::get_duty', clause='== (day branch - month branch) mod 12; Jian <=> equal branches; all 60 x 60 pillar pairs'),
-          dict(id='c17_k_twelve_star', fn='SixtyCycleDay::get_twelve_star', clause='Azure Dragon at the branch fixed by the month branch, advancing with the day branch; all 60 x 60 pillar pairs')],
+          dict(id='c17_k_twelve_star', fn='SixtyCycleDay::get_twelve_star', clause='Azure Dragon at the branch fixed by the month branch, advancing with the day branch; all 60 x 60 pillar pairs'),
+          dict(id='c17_k_year_nine_star', fn='SixtyCycleYear::get_nine_star / LunarYear::get_nine_star', clause='descending-year rule from 1864 = One White, every year -1..9999 (f64 floor path)'),
+          dict(id='c17_k_month_nine_star', fn='SixtyCycleMonth::get_nine_star', clause='branch-group rule: first star 8/5/2 by year branch mod 3, descending per month; every (year, month pillar)'),
+          dict(id='c17_k_hour_twelve_star', thorough_only=True, fn='SixtyCycleHour::get_twelve_star', clause='hour spirits start at the branch fixed by the day branch; all 60 x 60 pairs')],
     'level': 'other',
     'design_ref': '5/C17',
-    'technique': 'defining recurrences of the daily/hourly almanac cycles executed exhaustively over every civil date, every lunar year and every (year branch, month) pair',
-    'level_text': 'Bounded (exhaustive execution over finite day/year domains): day officer == (day branch - month branch) mod 12 (Jian <=> equal) and +1 per day within a sexagenary month; twelve spirits start at the branch fixed by the month (hour: day) branch; 28 mansions +1 per day with luminary == weekday; six-day star (|month| + day - 2) mod 6; moon phase; minor Ren; year nine star descending from 1864 = 1, month star by branch group, day star turning at the Jiazi days nearest the solstices, hour star. The formulas are one-line index arithmetic wrapped in name-table objects (17 s per Kani harness and format!-bound), so the finite domains are enumerated by execution instead.',
+    'technique': 'Kani on the index arithmetic of the day officer, twelve spirits, six-day star, minor Ren, year and month nine stars (real bodies, index-faithful cheap constructors) + the defining recurrences executed exhaustively over every civil date, every lunar year and every (year branch, month) pair',
+    'level_text': 'Deductive part (Kani, all pillar pairs / all years): day officer == (day branch - month branch) mod 12 with Jian <=> equal, twelve spirits of day and hour, six-day star, minor Ren, year star, month star. Bounded part (exhaustive execution over finite day/year domains, incl. the series that need term days): day officer == (day branch - month branch) mod 12 (Jian <=> equal) and +1 per day within a sexagenary month; twelve spirits start at the branch fixed by the month (hour: day) branch; 28 mansions +1 per day with luminary == weekday; six-day star (|month| + day - 2) mod 6; moon phase; minor Ren; year nine star descending from 1864 = 1, month star by branch group, day star turning at the Jiazi days nearest the solstices, hour star. The formulas are one-line index arithmetic wrapped in name-table objects (17 s per Kani harness and format!-bound), so the finite domains are enumerated by execution instead.',
     'level_note': 'exhaustive over dates 0002..9998 and years -1..9999; hours: 12 double-hours of the 1st and 15th of every month; known findings in the reform-year windows (consequence of C03); LunarMonth month star is checked only up to the leap month (after it the deprecated lunar-month pillar is shifted by upstream design), SixtyCycleMonth for all months',
     'explanation': 'exhaustive execution of the recurrence contracts over their finite domains',
     'functions': ['SixtyCycleDay::get_duty / get_twelve_star / get_twenty_eight_star / get_nine_star', 'LunarDay::get_six_star / get_phase / get_minor_ren / get_nine_star', 'LunarYear::get_nine_star', 'LunarMonth::get_nine_star', 'SixtyCycleMonth::get_nine_star', 'SixtyCycleHour::get_twelve_star / get_nine_star', 'LunarHour::get_twelve_star / get_nine_star'],
